@@ -530,6 +530,14 @@ impl Transaction {
         let start_of_outputs = start_of_inputs + inputs_len as usize * SLIP_SIZE;
         let start_of_message = start_of_outputs + outputs_len as usize * SLIP_SIZE;
         let start_of_path = start_of_message + message_len;
+        // the counts come from the sender: the buffer must really hold what they announce
+        let end_of_path = path_len
+            .checked_mul(HOP_SIZE)
+            .and_then(|path_size| start_of_path.checked_add(path_size))
+            .ok_or(Error::from(ErrorKind::InvalidData))?;
+        if bytes.len() < end_of_path {
+            return Err(Error::from(ErrorKind::InvalidData));
+        }
         let mut inputs: Vec<Slip> = vec![];
         for n in 0..inputs_len {
             let start_of_data: usize = start_of_inputs + n as usize * SLIP_SIZE;
